@@ -101,21 +101,30 @@ for _ix in range(len(PATTERNS)):
         HARNESSES["m%%d_T%%d" %% (_ix, _T)] = _mk(_ix, _T)
 
 
-def corpus(r1: bytes, r2: bytes) -> str:
+def _corpus(ix, r1, r2):
     """filter() returns the same packets with and without the regexp pre-filter"""
     r1 = fix(r1, %(c1)d)
     r2 = fix(r2, %(c2)d)
-    for lits in PATTERNS[:%(ncorpus)d]:
-        pattern = make_pattern(lits)
-        try:
-            pattern.as_regular_expression()
-        except Exception:
-            continue
-        with_rx = [q.pack() for q in pm_filter(pattern, [r1, r2], filter_with_regexp_first=True)]
-        without = [q.pack() for q in pm_filter(pattern, [r1, r2], filter_with_regexp_first=False)]
-        if with_rx != without:
-            return "FAIL sig=C18|filter-results-differ|%(key)s literals=%%r" %% (lits,)
+    pattern = make_pattern(PATTERNS[ix])
+    try:
+        pattern.as_regular_expression()
+    except Exception:
+        return "ok:not-buildable"
+    with_rx = [q.pack() for q in pm_filter(pattern, [r1, r2], filter_with_regexp_first=True)]
+    without = [q.pack() for q in pm_filter(pattern, [r1, r2], filter_with_regexp_first=False)]
+    if with_rx != without:
+        return "FAIL sig=C18|filter-results-differ|%(key)s literals=%%r" %% (PATTERNS[ix],)
     return "ok:same"
+
+
+def _mkc(ix):
+    def h(r1: bytes, r2: bytes) -> str:
+        return _corpus(ix, r1, r2)
+    return h
+
+
+for _ix in range(min(len(PATTERNS), %(ncorpus)d)):
+    HARNESSES["c%%d" %% _ix] = _mkc(_ix)
 '''
 
 
@@ -215,7 +224,9 @@ def build(tier, seed):
                                 timeout=240 if tier == "quick" else 900,
                                 bound="patterns %d..%d; candidate raw symbolic, every length in %s" % (b, b + chunk - 1, lengths),
                                 assertion="pattern == unpack(raw)  =>  regexp matches raw"))
-            obs.append(dict(base, id="C18/%s/%s/corpus" % (key, gen), fn="corpus", required_tags=["same"], timeout=240,
+            ncorp = min(len(patterns), 4 if tier == "quick" else 12)
+            obs.append(dict(base, id="C18/%s/%s/corpus" % (key, gen), fn=["c%d" % i for i in range(ncorp)], required_tags=["same"],
+                            timeout=240 if tier == "quick" else 1200,
                             bound="corpus of two symbolic strings (lengths lmax and lmax-1; 3 and 2 for delimiter declarations), first patterns",
                             assertion="filter(pattern, corpus, True) == filter(pattern, corpus, False)"))
     return {"obligations": obs,
